@@ -188,7 +188,8 @@ class _G(object):
                 lo = 0      # lists: long only by choice of the value generator
             r = Rng(lo, hi)
         elif kind < 30:
-            n = self.d(st.integers(0, maxb))
+            # (sizes 0 and 1 are boundary cases of their own: an always-empty value, no length field)
+            n = self.pick([0, 0, 1, 2]) if self.chance(20) else self.d(st.integers(0, maxb))
             r = Rng(n, n)
         elif kind < 40 and not self.p.require_bounded and self.p.semi_constraints:
             r = Rng(self.d(st.integers(0, maxb)), None)
@@ -383,20 +384,8 @@ class _G(object):
             elif target is not None and target.kind in ('OCTET STRING', 'SEQUENCE OF', 'SET OF', 'IA5String',
                                                         'VisibleString', 'UTF8String') and target.alpha is None:
                 c = target.size
-            if (c is not None and not c.ext and c.lo is not None and c.hi is not None and c.hi - c.lo >= 1
-                    and not c.lo_txt and not c.hi_txt):
-                w = c.hi - c.lo
-                a_ = self.pick([0, 0, 1, 2, w // 2])
-                b_ = self.pick([0, 1, 1, 2, w // 3])
-                lo, hi = c.lo + min(a_, w), c.hi - min(b_, w)
-                if self.chance(40):
-                    # a small window inside a (possibly huge) parent range
-                    hi = min(c.hi, lo + self.pick([0, 1, 7, 254, 255, 256, 65535, 65536]))
-                if lo > hi:
-                    lo, hi = c.lo, c.lo
-                n = Rng(lo, hi)
-                if P.ext_constraints and self.chance(40) and not P.require_bounded:
-                    n.ext = True
+            n = self.narrow(c)
+            if n is not None:
                 if target.kind == 'INTEGER':
                     t.rng = n
                 else:
@@ -415,6 +404,25 @@ class _G(object):
                   and not target.named_bits):
                 t.size = self.size_range(mod)
         return t
+
+    def narrow(self, c):
+        """a narrower, optionally extensible range inside the bounded non-extensible range c (serial application)"""
+        P = self.p
+        if (c is None or c.ext or c.lo is None or c.hi is None or c.hi - c.lo < 1 or c.lo_txt or c.hi_txt):
+            return None
+        w = c.hi - c.lo
+        a_ = self.pick([0, 0, 1, 2, w // 2])
+        b_ = self.pick([0, 1, 1, 2, w // 3])
+        lo, hi = c.lo + min(a_, w), c.hi - min(b_, w)
+        if self.chance(40):
+            # a small window inside a (possibly huge) parent range
+            hi = min(c.hi, lo + self.pick([0, 1, 7, 254, 255, 256, 65535, 65536]))
+        if lo > hi:
+            lo, hi = c.lo, c.lo
+        n = Rng(lo, hi)
+        if P.ext_constraints and self.chance(40) and not P.require_bounded:
+            n.ext = True
+        return n
 
     def lookup_avail(self, modname, name):
         for m in self.modules:
@@ -1023,7 +1031,12 @@ class _G(object):
                 if role != 'any':
                     if cname == 'Dw':
                         if role == 'constraint' and P.ref_constraints and P.constraints and target is not None:
-                            if target.kind == 'INTEGER' and target.rng is None:
+                            if target.kind == 'INTEGER' and target.rng is not None and P.stack_rate:
+                                m.ty.rng = self.narrow(target.rng)
+                            elif (target.kind in ('OCTET STRING', 'IA5String', 'UTF8String') and target.size is not None
+                                  and target.alpha is None and P.stack_rate):
+                                m.ty.size = self.narrow(target.size)
+                            elif target.kind == 'INTEGER' and target.rng is None:
                                 m.ty.rng = self.int_range(mod)
                             elif (target.size is None and target.alpha is None and not target.named_bits and
                                   target.kind in ('OCTET STRING', 'BIT STRING', 'IA5String', 'UTF8String',
